@@ -288,6 +288,12 @@ def ref_promote(x, stack=None):
         return ("Integer", int(x))
     if tx is M.String:
         return ("String", str(x))
+    if tx is M.Float:
+        return ("Float", repr(float(x)))
+    if tx is M.Complex:
+        return ("Complex", repr(complex(x)))
+    if tx is M.Bytes:
+        return ("Bytes", bytes(x).hex())
     seqmap = {list: "List", tuple: "Tuple", set: "Set", M.List: "List", M.Tuple: "Tuple", M.Set: "Set",
               M.Expression: "Expression", M.Dict: "Dict"}
     if tx is dict:
@@ -399,8 +405,13 @@ def generate(rng, tier):
             op = {"op": "heal", "slot": slot}
         elif r < 0.55:
             op = {"op": "mutate", "slot": slot, "v": rng.randrange(1000)}
-        elif r < 0.6:
+        elif r < 0.58:
             op = {"op": "fresh", "spec": {"t": "deep", "n": rng.choice([1500, 4000])}}
+        elif r < 0.63:
+            # models that the READER produced (they carry source positions), put into plain containers in an order
+            # that is not the source order, some of them twice
+            idx = [rng.randrange(9) for _ in range(rng.randint(2, 5))]
+            op = {"op": "promote_read", "idx": idx, "wrap": rng.choice(["list", "tuple", "nested", "dictval"])}
         elif r < 0.7 and ops and ops[-1]["op"] == "fresh":
             # same shape again (fresh allocation right after the previous, possibly failed, op)
             op = {"op": "fresh", "spec": ops[-1]["spec"], "times": rng.choice([1, 3, 8])}
@@ -502,7 +513,7 @@ def execute(desc):
     nontrivial = False
     seq = []
 
-    def promote(i, tag, x, spec_shape, k=None, exc=None, plain=False, slot=None):
+    def promote(i, tag, x, spec_shape, k=None, exc=None, plain=False, slot=None, expect=None):
         nonlocal failed_before, nontrivial
         probes["promotions"] += 1
         try:
@@ -553,6 +564,14 @@ def execute(desc):
                         pass
                     elif tree_of(again) != t or not (again == res):
                         note = ("idempotence", f"as_model(as_model(x)) differs: {str(tree_of(again))[:300]}")
+                    elif expect is not None:
+                        try:
+                            back = hy.eval(res, {}, module=_S["mod"])
+                            probes["eval_round_trips"] += 1
+                            if not (back == expect) or type(back) is not type(expect):
+                                note = ("eval_round_trip", f"hy.eval gave {back!r:.200}, the literals mean {expect!r:.200}")
+                        except Exception as e:
+                            note = ("eval_round_trip", f"hy.eval raised {type(e).__name__}: {e!s:.200}")
                     elif plain:
                         try:
                             back = hy.eval(res, {}, module=_S["mod"])
@@ -609,6 +628,22 @@ def execute(desc):
                 probes["mutations_between_promotions"] = probes.get("mutations_between_promotions", 0) + 1
             events.append([i, "mutate", op["slot"], tgt is not None])
             promote(i, "mutated", pool[op["slot"]], "mutated", slot=op["slot"])
+        elif kind == "promote_read":
+            models = list(hy.read_many(READ_SRC))
+            vals = [1, "two", 3.5, M.Keyword("kw"), [4, 5], (6, "x"), True, b"by", {7: 8}]
+            ms = [models[j] for j in op["idx"]]
+            vs = [vals[j] for j in op["idx"]]
+            w = op["wrap"]
+            if w == "list":
+                x, want = list(ms), list(vs)
+            elif w == "tuple":
+                x, want = tuple(ms), tuple(vs)
+            elif w == "nested":
+                x, want = [ms[0], list(ms[1:]), tuple(ms)], [vs[0], list(vs[1:]), tuple(vs)]
+            else:
+                x, want = {"k": list(ms), 2: ms[-1]}, {"k": list(vs), 2: vs[-1]}
+            probes["reader_model_promotions"] = probes.get("reader_model_promotions", 0) + 1
+            promote(i, "read", x, "read:" + w, expect=want)
         elif kind == "heal":
             _heal(pool[op["slot"]])
             events.append([i, "heal", op["slot"]])
@@ -632,6 +667,8 @@ def execute(desc):
     return {"events": events, "violations": viols[:4], "faults": faults, "probes": probes, "sigs": sigs,
             "steps": probes["promotions"]}
 
+
+READ_SRC = '1\n"two"\n3.5\n:kw\n[4 5]\n#(6 "x")\nTrue\nb"by"\n{7 8}\n'
 
 CLOSING = [
     {"t": "list", "items": [{"t": "int", "v": 1}, {"t": "list", "items": [{"t": "str", "v": "a"}, {"t": "dict", "items": [[{"t": "int", "v": 1}, {"t": "list", "items": []}]]}]}]},
